@@ -934,6 +934,16 @@ class ScriptGen:
                     nxt = cfg["next"][name]
                 n_ops = 1 + t.draw(self.max_ops, "nops")
                 ops += self.gen_block(D, self.max_depth, n_ops, top=True)
+                with t.span("counter_becomes_variable"):
+                    used_ctrs = sorted(_loop_counters(ops))
+                    pts = self.persistent_targets("float")
+                    if used_ctrs and pts and F.loops and "extra_temps" not in cfg and t.chance(0.2, "ctr_as_var"):
+                        # a name that served as loop variable earlier in the phase is assigned as an ordinary
+                        # variable afterwards and read (the loops before it must be over by then)
+                        c = self.pick(used_ctrs, "ctrv")
+                        pt = self.pick(pts, "ctrp")
+                        ops.append(("assign", c, None, Const(7), [], self.mode()))
+                        ops.append(("assign", pt, None, Bin("+", Var(pt), Var(c)), [], self.mode()))
                 if pi == 0 and self.unique_sites and not self.used_funcs:
                     # fault-injection workloads need at least one user-function call
                     tgt = sorted(n for n in self.types if n.startswith("<state>") and self.types[n] == "float")[0]
@@ -951,6 +961,18 @@ class ScriptGen:
         sc.shape_sig = list(self.shape)
         sc.features = [n for n in Features.NAMES if getattr(F, n)]
         return sc
+
+
+def _loop_counters(ops):
+    out = set()
+    for op in ops:
+        if op[0] == "assign" and op[4]:
+            out.update(c for c, _lo, _hi in op[4])
+        elif op[0] == "if":
+            out |= _loop_counters(op[2])
+            if op[3]:
+                out |= _loop_counters(op[3])
+    return out
 
 
 # ---------------------------------------------------------------- applying a script
